@@ -42,6 +42,9 @@ CLAIMED["C20"] = ("rejected / failing invocations: the argv combination, the cra
     "in-memory FS; every file afterwards is untouched or complete and parseable", "DESIGN.md#c20")
 CLAIMED["C14"] = ("sync_properties: (S) sync_property on hand-built modules whose output identifiers and location segments are solver variables "
     "(resolving or not), with and without wrap template; (F) sync_properties on the in-memory FS over module pairs x 1..3 pairs x wrap x eval", "DESIGN.md#c14")
+CLAIMED["C16"] = ("carried bodies: (S) RewriteName / emit.class_(emit_call) on a body template whose identifiers are solver variables against an "
+    "independent scoping model; (F) every body of <=3 statements from 8 statement kinds + 4 final-return forms (solver-enumerated) through "
+    "parse->emit of function / method / argparse function", "DESIGN.md#c16")
 NA = {
     "C19": "gen: every data path crosses importlib / inspect.getsource / compile+exec / file output, no symbolic data path is left; what remains is enumeration of a few concrete configurations, which is not this technique (DESIGN.md §C19)",
 }
